@@ -275,6 +275,7 @@ func runC08(c *Ctx) {
 			c.touch(fnKey(fn))
 			s := newSumm(p, 0)
 			s.EngineAliases = false
+			s.HelperInline = smHelperFilter(p, fn) // a helper given &sm.bb stores the big blind for its caller
 			paths, _ := s.Function(fn)
 			seen := map[string]bool{}
 			for _, ps := range paths {
@@ -504,6 +505,31 @@ func runC08(c *Ctx) {
 			}
 			if !stops {
 				bad = append(bad, "the closing walk does not stop at the big blind")
+			}
+			// ... at THIS hand's big blind: on the assigner's paths the big blind is stored before the
+			// walk (or the helper holding it) runs
+			{
+				as := newSumm(p, 0)
+				as.EngineAliases = false
+				as.HelperInline = smHelperFilter(p, assigner)
+				for _, ps := range func() []*PathSum { x, _ := as.Function(assigner); return x }() {
+					iBB, iWalk := -1, -1
+					for i, e := range ps.Events {
+						if e.Kind == "store" && e.FKey == "seat_manager.SeatManager.bb" {
+							iBB = i
+						}
+						if e.Kind == "call" && e.Fn != nil && e.Fn != f && ix.Info[e.Fn] != nil && ix.Info[e.Fn].TWrites["seat_manager.SeatManager.bb"] {
+							iBB = i // a helper that assigns the blinds
+						}
+						isWalk := (e.Kind == "loop" && e.Loop.Header == l.Header) || (e.Kind == "call" && e.Fn == f && f != assigner)
+						if isWalk && iWalk < 0 {
+							iWalk = i
+						}
+					}
+					if iWalk >= 0 && (iBB < 0 || iBB > iWalk) {
+						bad = append(bad, "the closing walk runs before this hand's big blind is stored: it stops at the previous hand's")
+					}
+				}
 			}
 			c.check(len(bad) == 0, "closed-span", fnKey(f), p.FnPos(f), "every empty seat from the dealer up to the big blind is closed, along the ring", "seats between dealer and big blind are not closed as the property says: a newcomer there is dealt in early", uniq(bad, 3)...)
 		}
@@ -920,6 +946,12 @@ func afterBigBlind(ix *Index, v ssa.Value, fn *ssa.Function, depth int) bool {
 // startsAtBigBlind: the slice value is t[idx:] where (bb, idx) is the result of the search whose
 // first result is stored as the big blind; or what a package function returns / is given as such.
 func startsAtBigBlind(ix *Index, v ssa.Value, fn *ssa.Function, depth int) bool {
+	return startsAtBB(ix, v, fn, depth, nil)
+}
+
+// bind: for a helper entered through a call, its parameters' arguments (a pointer parameter may
+// stand for &sm.bb).
+func startsAtBB(ix *Index, v ssa.Value, fn *ssa.Function, depth int, bind map[*ssa.Parameter]ssa.Value) bool {
 	if depth > 3 {
 		return false
 	}
@@ -933,8 +965,17 @@ func startsAtBigBlind(ix *Index, v ssa.Value, fn *ssa.Function, depth int) bool 
 		for _, ref := range *ex.Tuple.Referrers() {
 			if e0, ok := ref.(*ssa.Extract); ok && e0.Index == 0 {
 				for _, r2 := range *e0.Referrers() {
-					if st, ok := r2.(*ssa.Store); ok && accessKey(st.Addr) == "seat_manager.SeatManager.bb" {
+					st, ok := r2.(*ssa.Store)
+					if !ok {
+						continue
+					}
+					if accessKey(st.Addr) == "seat_manager.SeatManager.bb" {
 						return true
+					}
+					if prm, isP := st.Addr.(*ssa.Parameter); isP && bind != nil {
+						if fa, isFA := bind[prm].(*ssa.FieldAddr); isFA && fieldKeyOf(fa.X, fa.Field) == "seat_manager.SeatManager.bb" {
+							return true
+						}
 					}
 				}
 			}
@@ -945,11 +986,17 @@ func startsAtBigBlind(ix *Index, v ssa.Value, fn *ssa.Function, depth int) bool 
 		if f == nil || f.Pkg != fn.Pkg || f.Blocks == nil {
 			return false
 		}
+		b2 := map[*ssa.Parameter]ssa.Value{}
+		for i, prm := range f.Params {
+			if i < len(x.Call.Args) {
+				b2[prm] = x.Call.Args[i]
+			}
+		}
 		n := 0
 		for _, b := range f.Blocks {
 			if r, ok := b.Instrs[len(b.Instrs)-1].(*ssa.Return); ok && len(r.Results) >= 1 {
 				n++
-				if !startsAtBigBlind(ix, r.Results[0], f, depth+1) {
+				if !startsAtBB(ix, r.Results[0], f, depth+1, b2) {
 					return false
 				}
 			}
